@@ -1,15 +1,22 @@
 import Percival.Proofs.AFUNetIO
 import Percival.Proofs.AFUConnect
 /-!
-# C14, upper layers: the set-up ladder of `http_request` and `http_request_cancel` while connecting
+# C14, upper layers: the set-up ladders of `http_request` / `https_request` (both through `http_request2`) and
+`http_request_cancel` while connecting
 
-`httpRequest_spec` and `httpRequestCancel_spec` in the style of `networkAccept_spec` / `networkAcceptCancel_spec`.
-The ladder is cut into named pieces so that every path is a small lemma:
+`httpRequest_spec`, `httpsRequest_spec` and `httpRequestCancel_spec` in the style of `networkAccept_spec` /
+`networkAcceptCancel_spec`.  The ladder is cut into named pieces so that every path is a small lemma:
 
-* `httpW2 w headlen` — the world after the two allocations and the table insertion (`httpW2_inv`: it satisfies `Inv0`);
-* `httpTail w2 h hd addrs s` — `network_connect` and what follows (`httpTail_spec`, generic in `w2`);
+* `httpW2 w headlen ho` — the world after the two allocations of `http_request2` and the table insertion
+  (`httpW2_inv`: it satisfies `Inv0`; for HTTPS the host name's block, allocated by the caller just before, is
+  owned by the new record from here on);
+* `httpTail w2 h hd addrs s` — `network_connect` and what follows (`httpTail_spec`, generic in `w2` and in the
+  record's host name).  On failure the ladder frees the header and the cookie **only**: a host name stays
+  allocated, owned by nobody in the tables — that is the caller's (`https_request`'s `err1: free(sslhost)`), and
+  `httpTail_spec` says that releasing it then (once) restores `Inv0`;
 * `httpDrop w h hd` — `free(H->req_head); free(H);` and the table entry goes (`httpDrop_spec`, shared by err2/err1 of
-  `http_request` and by `http_request_cancel`).
+  `http_request2` and by `http_request_cancel`).
+* `eraseIds` / `freeN` / `releases_eq` / `inv0_drop`: several owned blocks released in a row.
 
 Exported helpers: `alloc_eq_some`, `alloc_eq_none`, `inv0_https`, `httpDrop`, `httpDrop_spec`, `httpW2`, `httpW2_inv`,
 `httpTail`, `httpTail_spec`, `httpRequest_eq_fail1`, `httpRequest_eq_fail2`, `httpRequest_eq_tail`,
@@ -66,77 +73,261 @@ theorem inv0_https {w : World} (h : Inv0 w) (l : List Http)
   show Owns w.live (expLive { tables w with https := l })
   rw [hl]; exact a5
 
+/-! ## several owned blocks released in a row -/
+
+/-- `eraseId` for each id in turn -/
+def eraseIds (l : List Block) : List Nat → List Block
+  | [] => l
+  | i :: rest => eraseIds (eraseId l i) rest
+
+/-- `n` calls of `free` on non-NULL pointers -/
+def freeN : Nat → Mem → Mem
+  | 0, m => m
+  | n + 1, m => freeN n (m.free false)
+
+theorem freeN_facts : ∀ (n : Nat) (m : Mem), (freeN n m).n = m.n ∧ (freeN n m).live = m.live - n ∧
+    (freeN n m).refusals = m.refusals ∧ Step m (freeN n m)
+  | 0, m => ⟨rfl, by simp [freeN], rfl, Step.refl m⟩
+  | n + 1, m => by
+    have ih := freeN_facts n (m.free false)
+    have hf := free_facts m false
+    simp only [Bool.false_eq_true, if_false] at hf
+    refine ⟨?_, ?_, ?_, ?_⟩
+    · show (freeN n (m.free false)).n = m.n
+      rw [ih.1, hf.2.2.2]
+    · show (freeN n (m.free false)).live = m.live - ((n + 1 : Nat) : Int)
+      rw [ih.2.1, hf.2.1]; omega
+    · show (freeN n (m.free false)).refusals = m.refusals
+      rw [ih.2.2.1, hf.1]
+    · exact (EvRegTimer.step_free m false).trans ih.2.2.2
+
+/-- erasing the blocks owned under the first keys, in their order -/
+theorem owns_eraseIds : ∀ (ks : List (Nat × Site)) {l : List Block} {E : List (Nat × Site)},
+    Owns l (ks ++ E) → (l.map (·.id)).Nodup →
+    Owns (eraseIds l (ks.map (·.1))) E ∧ (eraseIds l (ks.map (·.1))).length + ks.length = l.length ∧
+    (eraseIds l (ks.map (·.1))).Sublist l
+  | [], _, _, h, _ => ⟨h, rfl, List.Sublist.refl _⟩
+  | k :: ks, l, E, h, hnd => by
+    obtain ⟨b, hb, hkb⟩ := List.mem_map.1 (h.own1 k List.mem_cons_self)
+    have hid : b.id = k.1 := congrArg Prod.fst hkb
+    have h1 : Owns (eraseId l k.1) (ks ++ E) := Owns.erase h hnd
+    have hnd1 : ((eraseId l k.1).map (·.id)).Nodup := hnd.sublist ((eraseId_sublist _ _).map _)
+    obtain ⟨o, len, sub⟩ := owns_eraseIds ks h1 hnd1
+    have hl : (eraseId l k.1).length + 1 = l.length := by rw [← hid]; exact length_eraseId hb
+    refine ⟨o, ?_, sub.trans (eraseId_sublist _ _)⟩
+    show (eraseIds (eraseId l k.1) (ks.map (·.1))).length + (ks.length + 1) = l.length
+    omega
+
+/-- `release` of blocks the tables own (under the first keys), one after the other -/
+theorem releases_eq : ∀ (ks : List (Nat × Site)) {w : World} {E : List (Nat × Site)},
+    Owns w.live (ks ++ E) → (w.live.map (·.id)).Nodup →
+    (ks.map (·.1)).foldl release w = { w with m := freeN ks.length w.m, live := eraseIds w.live (ks.map (·.1)) }
+  | [], _, _, _, _ => rfl
+  | k :: ks, w, E, h, hnd => by
+    obtain ⟨b, hb, hkb⟩ := List.mem_map.1 (h.own1 k List.mem_cons_self)
+    have hid : b.id = k.1 := congrArg Prod.fst hkb
+    have e1 : release w k.1 = { w with m := w.m.free false, live := eraseId w.live k.1 } := by
+      rw [← hid]; exact release_live hb
+    have h1 : Owns (eraseId w.live k.1) (ks ++ E) := Owns.erase h hnd
+    have hnd1 : ((eraseId w.live k.1).map (·.id)).Nodup := hnd.sublist ((eraseId_sublist _ _).map _)
+    have ih := releases_eq ks (w := { w with m := w.m.free false, live := eraseId w.live k.1 }) (E := E) h1 hnd1
+    show (ks.map (·.1)).foldl release (release w k.1) = _
+    rw [e1, ih]
+    rfl
+
+/-- the table entries that own the first keys go (HTTP table), and their blocks with them -/
+theorem inv0_drop {w : World} (h : Inv0 w) (ks : List (Nat × Site)) (l' : List Http)
+    (hp : (expLive (tables w)).Perm (ks ++ expLive { tables w with https := l' })) :
+    Inv0 { w with m := freeN ks.length w.m, live := eraseIds w.live (ks.map (·.1)), https := l' } := by
+  have hnl := live_nodup h
+  obtain ⟨a1, a2, a3, a4, a5, a6, a7, a8, a9, a10, a11, a12⟩ := h
+  obtain ⟨o, len, sub⟩ := owns_eraseIds ks (a5.perm hp) hnl
+  have ff := freeN_facts ks.length w.m
+  refine ⟨evOk_step a1 (Nat.le_of_eq ff.1.symm), a2, ?_, ?_, o, a6, a7, a8, a9, a10, a11, ?_⟩
+  · intro b hb
+    show b.id < (freeN ks.length w.m).n
+    rw [ff.1]
+    rcases List.mem_append.1 hb with hb | hb
+    · exact a3 b (List.mem_append_left _ (sub.subset hb))
+    · exact a3 b (List.mem_append_right _ hb)
+  · exact a4.sublist ((sub.append_right _).map _)
+  · show (freeN ks.length w.m).live = _
+    rw [ff.2.1, a12]
+    show ((w.live.length : Int) + w.cache.length + w.evLive) - ks.length =
+      ((eraseIds w.live (ks.map (·.1))).length : Int) + w.cache.length + w.evLive
+    omega
+
+theorem release_with_https (w : World) (l : List Http) (id : Nat) :
+    release { w with https := l } id = { release w id with https := l } := by
+  simp only [release]
+  cases findId w.live id <;> rfl
+
 /-! ## `free(H->req_head); free(H);` and the table entry goes -/
 
-/-- err2 / err1 of `http_request`, and the end of `http_request_cancel` -/
+/-- err2 / err1 of `http_request2`, and the end of `http_request_cancel` -/
 def httpDrop (w : World) (c hd : Nat) : World :=
   { release (release w hd) c with https := (release (release w hd) c).https.filter (·.cookie != c) }
 
-theorem httpDrop_spec {w : World} {x : Http} (h : Inv0 w) (hx : x ∈ w.https) :
+/-- the blocks an entry of the HTTP table owns: header and cookie first (`http_request2`'s own), then the host name -/
+theorem http_entry_perm {w : World} {x : Http} (h : Inv0 w) (hx : x ∈ w.https) :
+    (expLive (tables w)).Perm ([(x.head, Site.httpHead), (x.cookie, Site.httpCookie)] ++
+      (hostKeys x ++ expLive { tables w with https := w.https.filter (fun y => y.cookie != x.cookie) })) :=
+  (expLive_filter_https h.owns.nodupE hx).trans (List.Perm.swap _ _ _)
+
+theorem httpDrop_eq {w : World} {x : Http} (h : Inv0 w) (hx : x ∈ w.https) :
+    httpDrop w x.cookie x.head =
+      { w with m := (w.m.free false).free false, live := eraseId (eraseId w.live x.head) x.cookie,
+               https := w.https.filter (fun y => y.cookie != x.cookie) } := by
+  have e : release (release w x.head) x.cookie =
+      { w with m := (w.m.free false).free false, live := eraseId (eraseId w.live x.head) x.cookie } :=
+    releases_eq [(x.head, Site.httpHead), (x.cookie, Site.httpCookie)] (h.owns.perm (http_entry_perm h hx)) (live_nodup h)
+  unfold httpDrop
+  rw [e]
+
+/-- an entry without a host name: after the two frees the invariant holds again -/
+theorem httpDrop_spec {w : World} {x : Http} (h : Inv0 w) (hx : x ∈ w.https) (hno : x.host = none) :
     httpDrop w x.cookie x.head =
       { w with m := (w.m.free false).free false, live := eraseId (eraseId w.live x.head) x.cookie,
                https := w.https.filter (fun y => y.cookie != x.cookie) } ∧
     Inv0 (httpDrop w x.cookie x.head) := by
-  have hndE := h.owns.nodupE
-  have hO : Owns w.live ((x.head, Site.httpHead) :: (x.cookie, Site.httpCookie) ::
-      expLive { tables w with https := w.https.filter (fun y => y.cookie != x.cookie) }) :=
-    (h.owns.perm (expLive_filter_https hndE hx)).perm (List.Perm.swap _ _ _)
-  obtain ⟨bh, hbh, hkh⟩ := List.mem_map.1 (hO.own1 _ List.mem_cons_self)
-  obtain ⟨bc, hbc, hkc⟩ := List.mem_map.1 (hO.own1 _ (List.mem_cons_of_mem _ List.mem_cons_self))
-  have hidh : bh.id = x.head := congrArg Prod.fst hkh
-  have hidc : bc.id = x.cookie := congrArg Prod.fst hkc
-  have hne : bc.id ≠ x.head := by
-    have := hO.nodupE
-    simp only [List.map_cons, List.nodup_cons, List.mem_cons, not_or] at this
-    rw [hidc]; exact fun e => this.1.1 e.symm
-  have hnl := live_nodup h
-  have hO1 : Owns (eraseId w.live x.head) ((x.cookie, Site.httpCookie) ::
-      expLive { tables w with https := w.https.filter (fun y => y.cookie != x.cookie) }) := hO.erase hnl
-  have hnl1 : ((eraseId w.live x.head).map (·.id)).Nodup := hnl.sublist ((eraseId_sublist _ _).map _)
-  have hO2 : Owns (eraseId (eraseId w.live x.head) x.cookie)
-      (expLive { tables w with https := w.https.filter (fun y => y.cookie != x.cookie) }) := hO1.erase hnl1
-  have hbc1 : bc ∈ eraseId w.live x.head := mem_eraseId_of_ne hbc hne
-  have e1 : release w x.head = { w with m := w.m.free false, live := eraseId w.live x.head } := by
-    rw [← hidh]; exact release_live hbh
-  have e2 : release { w with m := w.m.free false, live := eraseId w.live x.head } x.cookie =
-      { w with m := (w.m.free false).free false, live := eraseId (eraseId w.live x.head) x.cookie } := by
-    rw [← hidc]; exact release_live (w := { w with m := w.m.free false, live := eraseId w.live x.head }) hbc1
-  have heq : httpDrop w x.cookie x.head =
-      { w with m := (w.m.free false).free false, live := eraseId (eraseId w.live x.head) x.cookie,
+  refine ⟨httpDrop_eq h hx, ?_⟩
+  rw [httpDrop_eq h hx]
+  have hp := http_entry_perm h hx
+  have hk : hostKeys x = [] := by simp only [hostKeys, hno]
+  rw [hk] at hp
+  exact inv0_drop h [(x.head, Site.httpHead), (x.cookie, Site.httpCookie)] _ hp
+
+/-- an entry with a host name, failure ladder: header and cookie are freed by `http_request2`, the host name —
+still allocated, owned by no table entry — by the caller; then the invariant holds again -/
+theorem httpDropHost_spec {w : World} {x : Http} {sh : Nat} (h : Inv0 w) (hx : x ∈ w.https) (hs : x.host = some sh) :
+    release (httpDrop w x.cookie x.head) sh =
+      { w with m := ((w.m.free false).free false).free false,
+               live := eraseId (eraseId (eraseId w.live x.head) x.cookie) sh,
+               https := w.https.filter (fun y => y.cookie != x.cookie) } ∧
+    Inv0 (release (httpDrop w x.cookie x.head) sh) ∧
+    findId (httpDrop w x.cookie x.head).live sh ≠ none := by
+  have hk : hostKeys x = [(sh, Site.httpsHost)] := by simp only [hostKeys, hs]
+  have hp : (expLive (tables w)).Perm ([(x.head, Site.httpHead), (x.cookie, Site.httpCookie), (sh, Site.httpsHost)] ++
+      expLive { tables w with https := w.https.filter (fun y => y.cookie != x.cookie) }) := by
+    have := http_entry_perm h hx
+    rw [hk] at this
+    exact this
+  have e3 : release (release (release w x.head) x.cookie) sh =
+      { w with m := ((w.m.free false).free false).free false,
+               live := eraseId (eraseId (eraseId w.live x.head) x.cookie) sh } :=
+    releases_eq [(x.head, Site.httpHead), (x.cookie, Site.httpCookie), (sh, Site.httpsHost)] (h.owns.perm hp) (live_nodup h)
+  have e : release (httpDrop w x.cookie x.head) sh =
+      { w with m := ((w.m.free false).free false).free false,
+               live := eraseId (eraseId (eraseId w.live x.head) x.cookie) sh,
+               https := w.https.filter (fun y => y.cookie != x.cookie) } := by
+    have e2 : release (release w x.head) x.cookie =
+        { w with m := (w.m.free false).free false, live := eraseId (eraseId w.live x.head) x.cookie } :=
+      releases_eq [(x.head, Site.httpHead), (x.cookie, Site.httpCookie)] (h.owns.perm (http_entry_perm h hx)) (live_nodup h)
+    unfold httpDrop
+    rw [release_with_https, e3, e2]
+  refine ⟨e, ?_, ?_⟩
+  · rw [e]
+    exact inv0_drop h [(x.head, Site.httpHead), (x.cookie, Site.httpCookie), (sh, Site.httpsHost)] _ hp
+  · -- the host name's block is still live after the ladder's two frees
+    rw [httpDrop_eq h hx]
+    have o2 := (owns_eraseIds [(x.head, Site.httpHead), (x.cookie, Site.httpCookie)]
+      (E := (sh, Site.httpsHost) :: expLive { tables w with https := w.https.filter (fun y => y.cookie != x.cookie) })
+      (h.owns.perm hp) (live_nodup h)).1
+    obtain ⟨b, hb, hkb⟩ := List.mem_map.1 (o2.own1 _ List.mem_cons_self)
+    have hid : b.id = sh := congrArg Prod.fst hkb
+    have hb' : b ∈ eraseId (eraseId w.live x.head) x.cookie := hb
+    obtain ⟨b', hf⟩ := findId_of_mem hb'
+    show findId (eraseId (eraseId w.live x.head) x.cookie) sh ≠ none
+    rw [← hid, hf]
+    exact fun hc => by cases hc
+
+/-- an entry with a host name, `http_request_cancel`'s order: host name, header, cookie -/
+theorem httpDropCancel_spec {w : World} {x : Http} {sh : Nat} (h : Inv0 w) (hx : x ∈ w.https) (hs : x.host = some sh) :
+    httpDrop (release w sh) x.cookie x.head =
+      { w with m := ((w.m.free false).free false).free false,
+               live := eraseId (eraseId (eraseId w.live sh) x.head) x.cookie,
+               https := w.https.filter (fun y => y.cookie != x.cookie) } ∧
+    Inv0 (httpDrop (release w sh) x.cookie x.head) := by
+  have hk : hostKeys x = [(sh, Site.httpsHost)] := by simp only [hostKeys, hs]
+  have hp : (expLive (tables w)).Perm ([(sh, Site.httpsHost), (x.head, Site.httpHead), (x.cookie, Site.httpCookie)] ++
+      expLive { tables w with https := w.https.filter (fun y => y.cookie != x.cookie) }) := by
+    have := http_entry_perm h hx
+    rw [hk] at this
+    refine this.trans ?_
+    rw [List.perm_iff_count]; intro k
+    simp only [List.cons_append, List.nil_append, List.count_cons]; omega
+  have e3 : release (release (release w sh) x.head) x.cookie =
+      { w with m := ((w.m.free false).free false).free false,
+               live := eraseId (eraseId (eraseId w.live sh) x.head) x.cookie } :=
+    releases_eq [(sh, Site.httpsHost), (x.head, Site.httpHead), (x.cookie, Site.httpCookie)] (h.owns.perm hp) (live_nodup h)
+  have e : httpDrop (release w sh) x.cookie x.head =
+      { w with m := ((w.m.free false).free false).free false,
+               live := eraseId (eraseId (eraseId w.live sh) x.head) x.cookie,
                https := w.https.filter (fun y => y.cookie != x.cookie) } := by
     unfold httpDrop
-    rw [e1, e2]
-  refine ⟨heq, ?_⟩
-  rw [heq]
+    rw [e3]
+  refine ⟨e, ?_⟩
+  rw [e]
+  exact inv0_drop h [(sh, Site.httpsHost), (x.head, Site.httpHead), (x.cookie, Site.httpCookie)] _ hp
+
+/-! ## fresh blocks and the table entry that owns them -/
+
+theorem Owns.append_fresh : ∀ (bs : List Block) {l : List Block} {E : List (Nat × Site)}, Owns l E →
+    (bs.map (·.id)).Nodup → (∀ b ∈ bs, b.id ∉ l.map (·.id)) → Owns (bs ++ l) (bs.map key ++ E)
+  | [], _, _, h, _, _ => h
+  | b :: bs, l, E, h, hnd, hf => by
+    simp only [List.map_cons, List.nodup_cons] at hnd
+    have ih := Owns.append_fresh bs h hnd.2 (fun x hx => hf x (List.mem_cons_of_mem _ hx))
+    refine ih.cons b ?_
+    rw [List.map_append, List.mem_append]
+    rintro (hm | hm)
+    · exact hnd.1 hm
+    · exact hf b List.mem_cons_self hm
+
+/-- fresh blocks whose keys are exactly those of a new entry of the HTTP table -/
+theorem inv0_add_http {w : World} (h : Inv0 w) (bs : List Block) (a : Http) (m' : Mem)
+    (hn : w.m.n ≤ m'.n) (hids : ∀ b ∈ bs, w.m.n ≤ b.id ∧ b.id < m'.n) (hnd : (bs.map (·.id)).Nodup)
+    (hkeys : (bs.map key).Perm ((a.cookie, Site.httpCookie) :: (a.head, Site.httpHead) :: hostKeys a))
+    (hlive : m'.live = w.m.live + bs.length) :
+    Inv0 { w with m := m', live := bs ++ w.live, https := a :: w.https } := by
   obtain ⟨a1, a2, a3, a4, a5, a6, a7, a8, a9, a10, a11, a12⟩ := h
-  have hfr1 := free_facts w.m false
-  have hfr2 := free_facts (w.m.free false) false
-  have hn : ((w.m.free false).free false).n = w.m.n := by rw [hfr2.2.2.2, hfr1.2.2.2]
-  have hsub : (eraseId (eraseId w.live x.head) x.cookie).Sublist w.live :=
-    (eraseId_sublist _ _).trans (eraseId_sublist _ _)
-  refine ⟨evOk_step a1 (Nat.le_of_eq hn.symm), a2, ?_, ?_, hO2, a6, a7, a8, a9, a10, a11, ?_⟩
+  have hnew : ∀ b ∈ bs, b.id ∉ (w.live ++ w.cache).map (·.id) := by
+    intro b hb hm
+    obtain ⟨b', hb', hid⟩ := List.mem_map.1 hm
+    have := a3 b' hb'
+    have := (hids b hb).1
+    omega
+  have hnewl : ∀ b ∈ bs, b.id ∉ w.live.map (·.id) := by
+    intro b hb hm
+    exact hnew b hb (by rw [List.map_append]; exact List.mem_append_left _ hm)
+  refine ⟨evOk_step a1 hn, a2, ?_, ?_, ?_, a6, a7, a8, a9, a10, a11, ?_⟩
   · intro b hb
-    show b.id < ((w.m.free false).free false).n
-    rw [hn]
+    show b.id < m'.n
+    rw [List.append_assoc] at hb
     rcases List.mem_append.1 hb with hb | hb
-    · exact a3 b (List.mem_append_left _ (hsub.subset hb))
-    · exact a3 b (List.mem_append_right _ hb)
-  · exact a4.sublist ((hsub.append_right _).map _)
-  · show ((w.m.free false).free false).live = _
-    rw [hfr2.2.1, hfr1.2.1]
-    have hl1 : (eraseId w.live x.head).length + 1 = w.live.length := by rw [← hidh]; exact length_eraseId hbh
-    have hl2 : (eraseId (eraseId w.live x.head) x.cookie).length + 1 = (eraseId w.live x.head).length := by
-      rw [← hidc]; exact length_eraseId hbc1
-    simp only [Bool.false_eq_true, if_false]
+    · exact (hids b hb).2
+    · exact Nat.lt_of_lt_of_le (a3 b hb) hn
+  · show (((bs ++ w.live) ++ w.cache).map (·.id)).Nodup
+    rw [List.append_assoc, List.map_append]
+    refine List.nodup_append.2 ⟨hnd, a4, ?_⟩
+    intro x hx y hy hxy
+    obtain ⟨b, hb, rfl⟩ := List.mem_map.1 hx
+    exact hnew b hb (hxy ▸ hy)
+  · have o := Owns.append_fresh bs a5 hnd hnewl
+    refine o.perm ((hkeys.append_right _).trans ?_)
+    exact (expLive_cons_https (tables w) a).symm
+  · show m'.live = ((bs ++ w.live).length : Int) + w.cache.length + w.evLive
+    rw [hlive, a12, List.length_append]
+    push_cast
     omega
 
-/-! ## the ladder of `http_request`, cut into pieces -/
+/-! ## the ladder of `http_request2`, cut into pieces -/
 
-/-- the world after the two allocations and the table insertion -/
-def httpW2 (w : World) (headlen : Nat) : World :=
+/-- the world after the two allocations and the table insertion; `ho` is the caller's host name, if any -/
+def httpW2 (w : World) (headlen : Nat) (ho : Option Nat) : World :=
   { w with m := ((w.m.malloc httpCookieSize).2.malloc (headlen + 1)).2,
            live := ⟨w.m.n + 1, .httpHead, headlen + 1⟩ :: ⟨w.m.n, .httpCookie, httpCookieSize⟩ :: w.live,
-           https := ⟨w.m.n, w.m.n + 1, none⟩ :: w.https }
+           https := ⟨w.m.n, w.m.n + 1, none, ho⟩ :: w.https }
 
 /-- "Connect to the target host." and what follows -/
 def httpTail (w2 : World) (h hd : Nat) (addrs : List Connect.AddrOutcome) (s : Nat) : Option Nat × World :=
@@ -145,91 +336,125 @@ def httpTail (w2 : World) (h hd : Nat) (addrs : List Connect.AddrOutcome) (s : N
     (some h, { w3 with https := w3.https.map (fun x => if x.cookie == h then { x with conn := some c } else x) })
   | (none, w3) => (none, httpDrop w3 h hd)
 
-theorem httpRequest_eq_fail1 {w : World} (addrs : List Connect.AddrOutcome) (headlen s : Nat)
+theorem httpRequest2_eq_fail1 {w : World} (addrs : List Connect.AddrOutcome) (headlen s : Nat) (ho : Option Nat)
     (hm : (w.m.malloc httpCookieSize).1 = false) :
-    httpRequest w addrs headlen s = (none, { w with m := (w.m.malloc httpCookieSize).2 }) := by
-  unfold httpRequest
+    httpRequest2 w addrs headlen s ho = (none, { w with m := (w.m.malloc httpCookieSize).2 }) := by
+  unfold httpRequest2
   rw [alloc_eq_none hm]
 
-theorem httpRequest_eq_fail2 {w : World} (addrs : List Connect.AddrOutcome) (headlen s : Nat)
+theorem httpRequest2_eq_fail2 {w : World} (addrs : List Connect.AddrOutcome) (headlen s : Nat) (ho : Option Nat)
     (hm1 : (w.m.malloc httpCookieSize).1 = true)
     (hm2 : ((w.m.malloc httpCookieSize).2.malloc (headlen + 1)).1 = false) :
-    httpRequest w addrs headlen s =
+    httpRequest2 w addrs headlen s ho =
       (none, release { w with m := ((w.m.malloc httpCookieSize).2.malloc (headlen + 1)).2,
                               live := ⟨w.m.n, .httpCookie, httpCookieSize⟩ :: w.live } w.m.n) := by
-  unfold httpRequest
+  unfold httpRequest2
   rw [alloc_eq_some hm1]
   simp only
   rw [alloc_eq_none (w := { w with m := (w.m.malloc httpCookieSize).2,
                                    live := ⟨w.m.n, .httpCookie, httpCookieSize⟩ :: w.live }) hm2]
 
-theorem httpRequest_eq_tail {w : World} (addrs : List Connect.AddrOutcome) (headlen s : Nat)
+theorem httpRequest2_eq_tail {w : World} (addrs : List Connect.AddrOutcome) (headlen s : Nat) (ho : Option Nat)
     (hm1 : (w.m.malloc httpCookieSize).1 = true)
     (hm2 : ((w.m.malloc httpCookieSize).2.malloc (headlen + 1)).1 = true) :
-    httpRequest w addrs headlen s = httpTail (httpW2 w headlen) w.m.n (w.m.n + 1) addrs s := by
-  unfold httpRequest
+    httpRequest2 w addrs headlen s ho = httpTail (httpW2 w headlen ho) w.m.n (w.m.n + 1) addrs s := by
+  unfold httpRequest2
   rw [alloc_eq_some hm1]
   simp only
   rw [alloc_eq_some (w := { w with m := (w.m.malloc httpCookieSize).2,
                                    live := ⟨w.m.n, .httpCookie, httpCookieSize⟩ :: w.live }) hm2]
   rfl
 
-/-- after the two allocations and the table insertion the invariant holds again -/
+theorem httpRequest_eq_fail1 {w : World} (addrs : List Connect.AddrOutcome) (headlen s : Nat)
+    (hm : (w.m.malloc httpCookieSize).1 = false) :
+    httpRequest w addrs headlen s = (none, { w with m := (w.m.malloc httpCookieSize).2 }) :=
+  httpRequest2_eq_fail1 addrs headlen s none hm
+
+theorem httpRequest_eq_fail2 {w : World} (addrs : List Connect.AddrOutcome) (headlen s : Nat)
+    (hm1 : (w.m.malloc httpCookieSize).1 = true)
+    (hm2 : ((w.m.malloc httpCookieSize).2.malloc (headlen + 1)).1 = false) :
+    httpRequest w addrs headlen s =
+      (none, release { w with m := ((w.m.malloc httpCookieSize).2.malloc (headlen + 1)).2,
+                              live := ⟨w.m.n, .httpCookie, httpCookieSize⟩ :: w.live } w.m.n) :=
+  httpRequest2_eq_fail2 addrs headlen s none hm1 hm2
+
+theorem httpRequest_eq_tail {w : World} (addrs : List Connect.AddrOutcome) (headlen s : Nat)
+    (hm1 : (w.m.malloc httpCookieSize).1 = true)
+    (hm2 : ((w.m.malloc httpCookieSize).2.malloc (headlen + 1)).1 = true) :
+    httpRequest w addrs headlen s = httpTail (httpW2 w headlen none) w.m.n (w.m.n + 1) addrs s :=
+  httpRequest2_eq_tail addrs headlen s none hm1 hm2
+
+/-- after the two allocations and the table insertion the invariant holds again (plain HTTP) -/
 theorem httpW2_inv {w : World} (h : Inv0 w) (headlen : Nat) (hm1 : (w.m.malloc httpCookieSize).1 = true)
-    (hm2 : ((w.m.malloc httpCookieSize).2.malloc (headlen + 1)).1 = true) : Inv0 (httpW2 w headlen) := by
+    (hm2 : ((w.m.malloc httpCookieSize).2.malloc (headlen + 1)).1 = true) : Inv0 (httpW2 w headlen none) := by
   have ok1 := malloc_ok hm1
   have ok2 := malloc_ok hm2
-  obtain ⟨a1, a2, a3, a4, a5, a6, a7, a8, a9, a10, a11, a12⟩ := h
   have hn : ((w.m.malloc httpCookieSize).2.malloc (headlen + 1)).2.n = w.m.n + 2 := by rw [ok2.2.2.2, ok1.2.2.2]
-  have hnew : ∀ i, w.m.n ≤ i → i ∉ (w.live ++ w.cache).map (·.id) := by
-    intro i hi hm
-    obtain ⟨b, hb, hid⟩ := List.mem_map.1 hm
-    have := a3 b hb
-    omega
-  have hnewl : ∀ i, w.m.n ≤ i → i ∉ w.live.map (·.id) := by
-    intro i hi hm
-    exact hnew i hi (by rw [List.map_append]; exact List.mem_append_left _ hm)
-  unfold httpW2
-  refine ⟨evOk_step a1 (by show w.m.n ≤ _; rw [hn]; omega), a2, ?_, ?_, ?_, a6, a7, a8, a9, a10, a11, ?_⟩
+  refine inv0_add_http h [⟨w.m.n + 1, .httpHead, headlen + 1⟩, ⟨w.m.n, .httpCookie, httpCookieSize⟩]
+    ⟨w.m.n, w.m.n + 1, none, none⟩ _ (by rw [hn]; omega) ?_ ?_ ?_ ?_
   · intro b hb
-    show b.id < ((w.m.malloc httpCookieSize).2.malloc (headlen + 1)).2.n
     rw [hn]
-    simp only [List.cons_append, List.mem_cons] at hb
-    rcases hb with rfl | rfl | hb
-    · exact Nat.lt_succ_self _
-    · show w.m.n < w.m.n + 2
-      omega
-    · have := a3 b hb
-      omega
-  · show ((⟨w.m.n + 1, .httpHead, headlen + 1⟩ :: ⟨w.m.n, .httpCookie, httpCookieSize⟩ :: w.live ++ w.cache).map
-        (·.id)).Nodup
-    simp only [List.cons_append, List.map_cons, List.nodup_cons, List.mem_cons, not_or]
-    exact ⟨⟨by omega, hnew _ (by omega)⟩, hnew _ (Nat.le_refl _), a4⟩
-  · have o1 := a5.cons ⟨w.m.n, .httpCookie, httpCookieSize⟩ (hnewl _ (Nat.le_refl _))
-    have o2 := o1.cons ⟨w.m.n + 1, .httpHead, headlen + 1⟩ (by
-      simp only [List.map_cons, List.mem_cons, not_or]
-      exact ⟨by omega, hnewl _ (by omega)⟩)
-    exact o2.perm ((List.Perm.swap _ _ _).trans (expLive_cons_https (tables w) ⟨w.m.n, w.m.n + 1, none⟩).symm)
-  · show ((w.m.malloc httpCookieSize).2.malloc (headlen + 1)).2.live = _
-    rw [ok2.2.1, ok1.2.1]
-    simp only [List.length_cons]
+    simp only [List.mem_cons, List.not_mem_nil, or_false] at hb
+    rcases hb with rfl | rfl <;> refine ⟨?_, ?_⟩ <;> dsimp only <;> omega
+  · simp only [List.map_cons, List.map_nil, List.nodup_cons, List.mem_cons, List.not_mem_nil, or_false, not_false_eq_true,
+      List.nodup_nil, and_true]
+    omega
+  · exact List.Perm.swap _ _ _
+  · rw [ok2.2.1, ok1.2.1]
+    simp only [List.length_cons, List.length_nil]
     omega
 
-/-- `network_connect` and what follows, in a world where the new request heads the HTTP table -/
-theorem httpTail_spec {w2 : World} {c0 hd : Nat} {rest : List Http} (hi : Inv0 w2)
-    (hh : w2.https = ⟨c0, hd, none⟩ :: rest) (addrs : List Connect.AddrOutcome) (s : Nat) :
-    Inv0 (httpTail w2 c0 hd addrs s).2 ∧ Step w2.m (httpTail w2 c0 hd addrs s).2.m ∧
+/-- the same for HTTPS: the caller's `strdup` came first, and the new record owns its block too -/
+theorem httpsW2_inv {w : World} (h : Inv0 w) (headlen hostlen : Nat) (hm0 : (w.m.malloc (hostlen + 1)).1 = true)
+    (hm1 : ((w.m.malloc (hostlen + 1)).2.malloc httpCookieSize).1 = true)
+    (hm2 : (((w.m.malloc (hostlen + 1)).2.malloc httpCookieSize).2.malloc (headlen + 1)).1 = true) :
+    Inv0 (httpW2 { w with m := (w.m.malloc (hostlen + 1)).2, live := ⟨w.m.n, .httpsHost, hostlen + 1⟩ :: w.live }
+      headlen (some w.m.n)) := by
+  have ok0 := malloc_ok hm0
+  have ok1 := malloc_ok hm1
+  have ok2 := malloc_ok hm2
+  have hn1 : (w.m.malloc (hostlen + 1)).2.n = w.m.n + 1 := ok0.2.2.2
+  have hn : (((w.m.malloc (hostlen + 1)).2.malloc httpCookieSize).2.malloc (headlen + 1)).2.n = w.m.n + 3 := by
+    rw [ok2.2.2.2, ok1.2.2.2, ok0.2.2.2]
+  refine inv0_add_http h [⟨(w.m.malloc (hostlen + 1)).2.n + 1, .httpHead, headlen + 1⟩,
+      ⟨(w.m.malloc (hostlen + 1)).2.n, .httpCookie, httpCookieSize⟩, ⟨w.m.n, .httpsHost, hostlen + 1⟩]
+    ⟨(w.m.malloc (hostlen + 1)).2.n, (w.m.malloc (hostlen + 1)).2.n + 1, none, some w.m.n⟩ _ (by rw [hn]; omega) ?_ ?_ ?_ ?_
+  · intro b hb
+    rw [hn]
+    simp only [List.mem_cons, List.not_mem_nil, or_false] at hb
+    rcases hb with rfl | rfl | rfl <;> refine ⟨?_, ?_⟩ <;> dsimp only <;> omega
+  · simp only [List.map_cons, List.map_nil, List.nodup_cons, List.mem_cons, List.not_mem_nil, or_false, not_false_eq_true,
+      List.nodup_nil, and_true]
+    omega
+  · exact List.Perm.swap _ _ _
+  · rw [ok2.2.1, ok1.2.1, ok0.2.1]
+    simp only [List.length_cons, List.length_nil]
+    omega
+
+/-- `network_connect` and what follows, in a world where the new request heads the HTTP table.  On failure the
+ladder has freed the header and the cookie; a host name `ho = some sh` is still allocated (`findId … ≠ none`) and
+owned by no table entry: `Inv0` holds again once the caller has released it. -/
+theorem httpTail_spec {w2 : World} {c0 hd : Nat} {ho : Option Nat} {rest : List Http} (hi : Inv0 w2)
+    (hh : w2.https = ⟨c0, hd, none, ho⟩ :: rest) (addrs : List Connect.AddrOutcome) (s : Nat) :
+    Step w2.m (httpTail w2 c0 hd addrs s).2.m ∧
     ((httpTail w2 c0 hd addrs s).1 = none →
+        (ho = none → Inv0 (httpTail w2 c0 hd addrs s).2) ∧
+        (∀ sh, ho = some sh →
+          release (httpTail w2 c0 hd addrs s).2 sh =
+            { (httpTail w2 c0 hd addrs s).2 with m := (httpTail w2 c0 hd addrs s).2.m.free false,
+                                                  live := eraseId (httpTail w2 c0 hd addrs s).2.live sh } ∧
+          Inv0 (release (httpTail w2 c0 hd addrs s).2 sh) ∧
+          findId (httpTail w2 c0 hd addrs s).2.live sh ≠ none) ∧
         (httpTail w2 c0 hd addrs s).2.live = eraseId (eraseId w2.live hd) c0 ∧
         tables (httpTail w2 c0 hd addrs s).2 = { tables w2 with https := rest } ∧
         registry (httpTail w2 c0 hd addrs s).2.ev = registry w2.ev ∧
         (httpTail w2 c0 hd addrs s).2.bad = w2.bad ∧
         ((skipFailNow addrs ≠ [] → ¬ netRegistered w2.ev s true ∧ 24 * (s + 1) ≤ EArray.SIZE_MAX) →
           w2.ev.timers.length < 2^32 → w2.m.refusals < (httpTail w2 c0 hd addrs s).2.m.refusals)) ∧
-    (∀ x, (httpTail w2 c0 hd addrs s).1 = some x → x = c0 ∧ ∃ c,
+    (∀ x, (httpTail w2 c0 hd addrs s).1 = some x → Inv0 (httpTail w2 c0 hd addrs s).2 ∧ x = c0 ∧ ∃ c,
         (httpTail w2 c0 hd addrs s).2.live = ⟨c, .connCookie, connCookieSize⟩ :: w2.live ∧
         tables (httpTail w2 c0 hd addrs s).2 =
-          { tables w2 with https := ⟨c0, hd, some c⟩ :: rest, conns := connEntry c addrs none s :: w2.conns } ∧
+          { tables w2 with https := ⟨c0, hd, some c, ho⟩ :: rest, conns := connEntry c addrs none s :: w2.conns } ∧
         (httpTail w2 c0 hd addrs s).2.m.refusals = w2.m.refusals) ∧
     ((httpTail w2 c0 hd addrs s).2.m.refusals ≠ w2.m.refusals → (httpTail w2 c0 hd addrs s).1 = none) := by
   have hsp := networkConnect_spec w2 addrs none s hi
@@ -248,9 +473,9 @@ theorem httpTail_spec {w2 : World} {c0 hd : Nat} {rest : List Http} (hi : Inv0 w
   cases o with
   | some c =>
     obtain ⟨l3, t3, r3⟩ := ok3 c rfl
-    have hht : w3.https = ⟨c0, hd, none⟩ :: rest := (congrArg Tables.https t3).trans hh
+    have hht : w3.https = ⟨c0, hd, none, ho⟩ :: rest := (congrArg Tables.https t3).trans hh
     have hmap : w3.https.map (fun x => if x.cookie == c0 then { x with conn := some c } else x) =
-        ⟨c0, hd, some c⟩ :: rest := by
+        ⟨c0, hd, some c, ho⟩ :: rest := by
       rw [hht]
       simp only [List.map_cons, beq_self_eq_true, if_true, List.cons.injEq, true_and]
       conv => rhs; rw [← List.map_id rest]
@@ -259,19 +484,19 @@ theorem httpTail_spec {w2 : World} {c0 hd : Nat} {rest : List Http} (hi : Inv0 w
       simp only [hnot y hy, Bool.false_eq_true, if_false, id]
     simp only
     rw [hmap]
-    refine ⟨?_, st3, fun hc => (by cases hc), ?_, fun hne => absurd r3 hne⟩
+    refine ⟨st3, fun hc => (by cases hc), ?_, fun hne => absurd r3 hne⟩
+    intro x hx
+    simp only [Option.some.injEq] at hx
+    refine ⟨?_, hx.symm, c, l3, ?_, r3⟩
     · apply inv0_https i3
-      simp only [expLive, tables, hht, List.flatMap_cons]
-    · intro x hx
-      simp only [Option.some.injEq] at hx
-      refine ⟨hx.symm, c, l3, ?_, r3⟩
-      show ({ tables w3 with https := ⟨c0, hd, some c⟩ :: rest } : Tables) = _
+      simp only [expLive, tables, hht, List.flatMap_cons, hostKeys]
+    · show ({ tables w3 with https := ⟨c0, hd, some c, ho⟩ :: rest } : Tables) = _
       rw [t3]
   | none =>
     have sm := same3 rfl
-    have hht : w3.https = ⟨c0, hd, none⟩ :: rest := (congrArg Tables.https sm.tables).trans hh
-    have hx3 : (⟨c0, hd, none⟩ : Http) ∈ w3.https := by rw [hht]; exact List.mem_cons_self
-    obtain ⟨d1, d2⟩ := httpDrop_spec i3 hx3
+    have hht : w3.https = ⟨c0, hd, none, ho⟩ :: rest := (congrArg Tables.https sm.tables).trans hh
+    have hx3 : (⟨c0, hd, none, ho⟩ : Http) ∈ w3.https := by rw [hht]; exact List.mem_cons_self
+    have d1 := httpDrop_eq i3 hx3
     have hfil : w3.https.filter (fun y => y.cookie != c0) = rest := by
       rw [hht]
       simp only [List.filter_cons, bne_self_eq_false, Bool.false_eq_true, if_false]
@@ -284,10 +509,16 @@ theorem httpTail_spec {w2 : World} {c0 hd : Nat} {rest : List Http} (hi : Inv0 w
     have hfr1 := free_facts w3.m false
     have hfr2 := free_facts (w3.m.free false) false
     simp only
-    refine ⟨d2, ?_, fun _ => ⟨?_, ?_, ?_, ?_, ?_⟩, fun x hx => (by cases hx), fun _ => trivial⟩
+    refine ⟨?_, fun _ => ⟨?_, ?_, ?_, ?_, ?_, ?_, ?_⟩, fun x hx => (by cases hx), fun _ => trivial⟩
     · rw [d1']
       show Step w2.m ((w3.m.free false).free false)
       exact (st3.trans (EvRegTimer.step_free _ _)).trans (EvRegTimer.step_free _ _)
+    · intro hno
+      exact (httpDrop_spec i3 hx3 hno).2
+    · intro sh hsh
+      obtain ⟨e1, e2, e3⟩ := httpDropHost_spec (x := ⟨c0, hd, none, ho⟩) i3 hx3 hsh
+      refine ⟨?_, e2, e3⟩
+      rw [e1, d1]
     · rw [d1']
       show eraseId (eraseId w3.live hd) c0 = _
       rw [sm.live]
@@ -314,7 +545,7 @@ theorem httpRequest_spec (w : World) (addrs : List Connect.AddrOutcome) (headlen
         (httpRequest w addrs headlen s).2.live =
           ⟨c, .connCookie, connCookieSize⟩ :: ⟨hd, .httpHead, headlen + 1⟩ :: ⟨x, .httpCookie, httpCookieSize⟩ :: w.live ∧
         tables (httpRequest w addrs headlen s).2 =
-          { tables w with https := ⟨x, hd, some c⟩ :: w.https, conns := connEntry c addrs none s :: w.conns } ∧
+          { tables w with https := ⟨x, hd, some c, none⟩ :: w.https, conns := connEntry c addrs none s :: w.conns } ∧
         (httpRequest w addrs headlen s).2.m.refusals = w.m.refusals) ∧
     ((httpRequest w addrs headlen s).2.m.refusals ≠ w.m.refusals → (httpRequest w addrs headlen s).1 = none) ∧
     ((httpRequest w addrs headlen s).1 = none →
@@ -356,31 +587,255 @@ theorem httpRequest_spec (w : World) (addrs : List Connect.AddrOutcome) (headlen
     | true =>
       have ok2 := malloc_ok hm2
       have hi2 := httpW2_inv h headlen hm1 hm2
-      have hst2 : Step w.m (httpW2 w headlen).m := hs1.trans hs2
-      have href2 : (httpW2 w headlen).m.refusals = w.m.refusals := by
+      have hst2 : Step w.m (httpW2 w headlen none).m := hs1.trans hs2
+      have href2 : (httpW2 w headlen none).m.refusals = w.m.refusals := by
         show ((w.m.malloc httpCookieSize).2.malloc (headlen + 1)).2.refusals = _
         rw [ok2.1, ok1.1]
-      obtain ⟨t1, t2, t3, t4, t5⟩ := httpTail_spec (w2 := httpW2 w headlen) (c0 := w.m.n) (hd := w.m.n + 1)
-        (rest := w.https) hi2 rfl addrs s
+      obtain ⟨t2, t3, t4, t5⟩ := httpTail_spec (w2 := httpW2 w headlen none) (c0 := w.m.n) (hd := w.m.n + 1)
+        (ho := none) (rest := w.https) hi2 rfl addrs s
       rw [httpRequest_eq_tail addrs headlen s hm1 hm2]
-      refine ⟨t1, hst2.trans t2, ?_, ?_, ?_, ?_⟩
+      refine ⟨?_, hst2.trans t2, ?_, ?_, ?_, ?_⟩
+      · cases ho : (httpTail (httpW2 w headlen none) w.m.n (w.m.n + 1) addrs s).1 with
+        | none => exact (t3 ho).1 rfl
+        | some x => exact (t4 x ho).1
       · intro hn
-        obtain ⟨u1, u2, u3, u4, _⟩ := t3 hn
+        obtain ⟨_, _, u1, u2, u3, u4, _⟩ := t3 hn
         refine ⟨?_, u2, u3, u4⟩
         rw [u1]
         show eraseId (eraseId (⟨w.m.n + 1, .httpHead, headlen + 1⟩ :: ⟨w.m.n, .httpCookie, httpCookieSize⟩ :: w.live)
           (w.m.n + 1)) w.m.n = w.live
         simp [eraseId]
       · intro x hx
-        obtain ⟨rfl, c, u1, u2, u3⟩ := t4 x hx
+        obtain ⟨_, rfl, c, u1, u2, u3⟩ := t4 x hx
         exact ⟨w.m.n + 1, c, u1, u2, u3.trans href2⟩
       · intro hne
         exact t5 (by rw [href2]; exact hne)
       · intro hn hp ht
         rw [← href2]
-        exact (t3 hn).2.2.2.2 hp ht
+        exact (t3 hn).2.2.2.2.2.2 hp ht
+
+/-! ## `https_request` -/
+
+/-- the world after `https_request`'s `strdup(hostname)` was granted: the copy is allocated, and (so far) owned by
+the caller only -/
+def httpsW1 (w : World) (hostlen : Nat) : World :=
+  { w with m := (w.m.malloc (hostlen + 1)).2, live := ⟨w.m.n, .httpsHost, hostlen + 1⟩ :: w.live }
+
+theorem httpsRequest_eq_fail0 {w : World} (addrs : List Connect.AddrOutcome) (headlen s hostlen : Nat)
+    (hm : (w.m.malloc (hostlen + 1)).1 = false) :
+    httpsRequest w addrs headlen s hostlen = (none, { w with m := (w.m.malloc (hostlen + 1)).2 }) := by
+  unfold httpsRequest
+  rw [alloc_eq_none hm]
+
+theorem httpsRequest_eq_next {w : World} (addrs : List Connect.AddrOutcome) (headlen s hostlen : Nat)
+    (hm : (w.m.malloc (hostlen + 1)).1 = true) :
+    httpsRequest w addrs headlen s hostlen =
+      match httpRequest2 (httpsW1 w hostlen) addrs headlen s (some w.m.n) with
+      | (some h, w2) => (some h, w2)
+      | (none, w2) => (none, release w2 w.m.n) := by
+  unfold httpsRequest
+  rw [alloc_eq_some hm]
+  rfl
+
+/-- **the ownership rule**: when `http_request2` fails, the caller's host name is still allocated — none of the
+ladder's rungs has freed it — so `https_request`'s `free(sslhost)` is the one and only release of that block -/
+theorem httpRequest2_failure_keeps_host (w : World) (addrs : List Connect.AddrOutcome) (headlen s hostlen : Nat)
+    (h : Inv0 w) (hm : (w.m.malloc (hostlen + 1)).1 = true)
+    (hf : (httpRequest2 (httpsW1 w hostlen) addrs headlen s (some w.m.n)).1 = none) :
+    findId (httpRequest2 (httpsW1 w hostlen) addrs headlen s (some w.m.n)).2.live w.m.n ≠ none ∧
+    (httpRequest2 (httpsW1 w hostlen) addrs headlen s (some w.m.n)).2.bad = w.bad := by
+  have ok0 := malloc_ok hm
+  have hn1 : (httpsW1 w hostlen).m.n = w.m.n + 1 := ok0.2.2.2
+  cases hm1 : ((httpsW1 w hostlen).m.malloc httpCookieSize).1 with
+  | false =>
+    rw [httpRequest2_eq_fail1 addrs headlen s _ hm1]
+    refine ⟨?_, rfl⟩
+    show findId (⟨w.m.n, .httpsHost, hostlen + 1⟩ :: w.live) w.m.n ≠ none
+    simp [findId]
+  | true =>
+    cases hm2 : (((httpsW1 w hostlen).m.malloc httpCookieSize).2.malloc (headlen + 1)).1 with
+    | false =>
+      rw [httpRequest2_eq_fail2 addrs headlen s _ hm1 hm2]
+      have hfind : findId (⟨(httpsW1 w hostlen).m.n, .httpCookie, httpCookieSize⟩ :: (httpsW1 w hostlen).live)
+          (httpsW1 w hostlen).m.n = some ⟨(httpsW1 w hostlen).m.n, .httpCookie, httpCookieSize⟩ := by simp [findId]
+      simp only [release, hfind, eraseId, beq_self_eq_true, if_true]
+      refine ⟨?_, rfl⟩
+      show findId (⟨w.m.n, .httpsHost, hostlen + 1⟩ :: w.live) w.m.n ≠ none
+      simp [findId]
+    | true =>
+      have hi2 := httpsW2_inv h headlen hostlen hm hm1 hm2
+      rw [httpRequest2_eq_tail addrs headlen s _ hm1 hm2] at hf ⊢
+      obtain ⟨_, t3, _, _⟩ := httpTail_spec (w2 := httpW2 (httpsW1 w hostlen) headlen (some w.m.n))
+        (c0 := (httpsW1 w hostlen).m.n) (hd := (httpsW1 w hostlen).m.n + 1) (ho := some w.m.n) (rest := w.https)
+        hi2 rfl addrs s
+      obtain ⟨_, u0, _, _, _, u4, _⟩ := t3 hf
+      exact ⟨(u0 w.m.n rfl).2.2, u4.trans hi2.bad0 |>.trans h.bad0.symm⟩
+
+/-- `https_request` while connecting: whether it succeeds or fails, under every oracle -/
+theorem httpsRequest_spec (w : World) (addrs : List Connect.AddrOutcome) (headlen s hostlen : Nat) (h : Inv0 w) :
+    Inv0 (httpsRequest w addrs headlen s hostlen).2 ∧ Step w.m (httpsRequest w addrs headlen s hostlen).2.m ∧
+    ((httpsRequest w addrs headlen s hostlen).1 = none → Same w (httpsRequest w addrs headlen s hostlen).2) ∧
+    (∀ x, (httpsRequest w addrs headlen s hostlen).1 = some x → ∃ sh hd c,
+        (httpsRequest w addrs headlen s hostlen).2.live =
+          ⟨c, .connCookie, connCookieSize⟩ :: ⟨hd, .httpHead, headlen + 1⟩ :: ⟨x, .httpCookie, httpCookieSize⟩ ::
+            ⟨sh, .httpsHost, hostlen + 1⟩ :: w.live ∧
+        tables (httpsRequest w addrs headlen s hostlen).2 =
+          { tables w with https := ⟨x, hd, some c, some sh⟩ :: w.https, conns := connEntry c addrs none s :: w.conns } ∧
+        (httpsRequest w addrs headlen s hostlen).2.m.refusals = w.m.refusals) ∧
+    ((httpsRequest w addrs headlen s hostlen).2.m.refusals ≠ w.m.refusals → (httpsRequest w addrs headlen s hostlen).1 = none) ∧
+    ((httpsRequest w addrs headlen s hostlen).1 = none →
+        (skipFailNow addrs ≠ [] → ¬ netRegistered w.ev s true ∧ 24 * (s + 1) ≤ EArray.SIZE_MAX) →
+        w.ev.timers.length < 2^32 → w.m.refusals < (httpsRequest w addrs headlen s hostlen).2.m.refusals) := by
+  have hs0 := EvRegTimer.step_malloc w.m (hostlen + 1)
+  cases hm0 : (w.m.malloc (hostlen + 1)).1 with
+  | false =>
+    -- err0: the strdup was refused
+    have hf := malloc_fail hm0
+    rw [httpsRequest_eq_fail0 addrs headlen s hostlen hm0]
+    refine ⟨inv0_mem h _ hs0.n hf.2.1, hs0, fun _ => ⟨rfl, rfl, rfl, rfl⟩, fun c hc => (by cases hc), fun _ => rfl,
+      fun _ _ _ => (by show w.m.refusals < (w.m.malloc (hostlen + 1)).2.refusals; rw [hf.1]; omega)⟩
+  | true =>
+    have ok0 := malloc_ok hm0
+    rw [httpsRequest_eq_next addrs headlen s hostlen hm0]
+    have hfindh : ∀ l : List Block, findId (⟨w.m.n, .httpsHost, hostlen + 1⟩ :: l) w.m.n =
+        some ⟨w.m.n, .httpsHost, hostlen + 1⟩ := fun l => by simp [findId]
+    have hs1 := EvRegTimer.step_malloc (httpsW1 w hostlen).m httpCookieSize
+    cases hm1 : ((httpsW1 w hostlen).m.malloc httpCookieSize).1 with
+    | false =>
+      -- http_request2's err0, then err1 of https_request: free(sslhost)
+      have hf := malloc_fail hm1
+      rw [httpRequest2_eq_fail1 addrs headlen s _ hm1]
+      have hfr := free_facts ((httpsW1 w hostlen).m.malloc httpCookieSize).2 false
+      simp only [Bool.false_eq_true, if_false] at hfr
+      have hst : Step w.m (((httpsW1 w hostlen).m.malloc httpCookieSize).2.free false) :=
+        (hs0.trans hs1).trans (EvRegTimer.step_free _ _)
+      simp only [release, httpsW1, hfindh, eraseId, beq_self_eq_true, if_true]
+      refine ⟨?_, hst, fun _ => ⟨rfl, rfl, rfl, rfl⟩, fun c hc => (by cases hc), fun _ => trivial, ?_⟩
+      · refine inv0_frame h (evOk_step h.ev hst.n) rfl hst.n rfl rfl rfl rfl rfl rfl ?_
+        show (((httpsW1 w hostlen).m.malloc httpCookieSize).2.free false).live = _
+        rw [hfr.2.1, hf.2.1]
+        show (w.m.malloc (hostlen + 1)).2.live - 1 = _
+        rw [ok0.2.1]
+        have := h.acct
+        dsimp only
+        omega
+      · intro _ _ _
+        show w.m.refusals < (((httpsW1 w hostlen).m.malloc httpCookieSize).2.free false).refusals
+        rw [hfr.1, hf.1]
+        show w.m.refusals < (w.m.malloc (hostlen + 1)).2.refusals + 1
+        rw [ok0.1]
+        omega
+    | true =>
+      have ok1 := malloc_ok hm1
+      have hs2 := EvRegTimer.step_malloc ((httpsW1 w hostlen).m.malloc httpCookieSize).2 (headlen + 1)
+      cases hm2 : (((httpsW1 w hostlen).m.malloc httpCookieSize).2.malloc (headlen + 1)).1 with
+      | false =>
+        -- http_request2's err1: free(H); then free(sslhost)
+        have hf := malloc_fail hm2
+        rw [httpRequest2_eq_fail2 addrs headlen s _ hm1 hm2]
+        have hfind : ∀ l : List Block, findId (⟨(httpsW1 w hostlen).m.n, .httpCookie, httpCookieSize⟩ :: l)
+            (httpsW1 w hostlen).m.n = some ⟨(httpsW1 w hostlen).m.n, .httpCookie, httpCookieSize⟩ := fun l => by simp [findId]
+        have hfr1 := free_facts (((httpsW1 w hostlen).m.malloc httpCookieSize).2.malloc (headlen + 1)).2 false
+        have hfr2 := free_facts ((((httpsW1 w hostlen).m.malloc httpCookieSize).2.malloc (headlen + 1)).2.free false) false
+        simp only [Bool.false_eq_true, if_false] at hfr1 hfr2
+        have hst : Step w.m (((((httpsW1 w hostlen).m.malloc httpCookieSize).2.malloc (headlen + 1)).2.free false).free false) :=
+          (((hs0.trans hs1).trans hs2).trans (EvRegTimer.step_free _ _)).trans (EvRegTimer.step_free _ _)
+        simp only [release, hfind, eraseId, beq_self_eq_true, if_true]
+        simp only [httpsW1, hfindh, eraseId, beq_self_eq_true, if_true]
+        refine ⟨?_, hst, fun _ => ⟨rfl, rfl, rfl, rfl⟩, fun c hc => (by cases hc), fun _ => trivial, ?_⟩
+        · refine inv0_frame h (evOk_step h.ev hst.n) rfl hst.n rfl rfl rfl rfl rfl rfl ?_
+          show (((((httpsW1 w hostlen).m.malloc httpCookieSize).2.malloc (headlen + 1)).2.free false).free false).live = _
+          rw [hfr2.2.1, hfr1.2.1, hf.2.1, ok1.2.1]
+          show (w.m.malloc (hostlen + 1)).2.live + 1 - 1 - 1 = _
+          rw [ok0.2.1]
+          have := h.acct
+          dsimp only
+          omega
+        · intro _ _ _
+          show w.m.refusals <
+            (((((httpsW1 w hostlen).m.malloc httpCookieSize).2.malloc (headlen + 1)).2.free false).free false).refusals
+          rw [hfr2.1, hfr1.1, hf.1, ok1.1]
+          show w.m.refusals < (w.m.malloc (hostlen + 1)).2.refusals + 1
+          rw [ok0.1]
+          omega
+      | true =>
+        have ok2 := malloc_ok hm2
+        have hi2 := httpsW2_inv h headlen hostlen hm0 hm1 hm2
+        have hst2 : Step w.m (httpW2 (httpsW1 w hostlen) headlen (some w.m.n)).m := (hs0.trans hs1).trans hs2
+        have href2 : (httpW2 (httpsW1 w hostlen) headlen (some w.m.n)).m.refusals = w.m.refusals := by
+          show (((httpsW1 w hostlen).m.malloc httpCookieSize).2.malloc (headlen + 1)).2.refusals = _
+          rw [ok2.1, ok1.1]
+          exact ok0.1
+        obtain ⟨t2, t3, t4, t5⟩ := httpTail_spec (w2 := httpW2 (httpsW1 w hostlen) headlen (some w.m.n))
+          (c0 := (httpsW1 w hostlen).m.n) (hd := (httpsW1 w hostlen).m.n + 1) (ho := some w.m.n) (rest := w.https)
+          hi2 rfl addrs s
+        rw [httpRequest2_eq_tail addrs headlen s _ hm1 hm2]
+        have hn1 : (httpsW1 w hostlen).m.n = w.m.n + 1 := ok0.2.2.2
+        rcases hR : httpTail (httpW2 (httpsW1 w hostlen) headlen (some w.m.n)) (httpsW1 w hostlen).m.n
+            ((httpsW1 w hostlen).m.n + 1) addrs s with ⟨o, w4⟩
+        rw [hR] at t2 t3 t4 t5
+        simp only at t2 t3 t4 t5
+        cases o with
+        | none =>
+          obtain ⟨_, u0, u1, u2, u3, u4, u5⟩ := t3 rfl
+          obtain ⟨e1, e2, _⟩ := u0 w.m.n rfl
+          have hfr := free_facts w4.m false
+          simp only [Bool.false_eq_true, if_false] at hfr
+          simp only
+          refine ⟨e2, ?_, fun _ => ?_, fun x hx => (by cases hx), fun _ => trivial, ?_⟩
+          · rw [e1]
+            show Step w.m (w4.m.free false)
+            exact (hst2.trans t2).trans (EvRegTimer.step_free _ _)
+          · rw [e1]
+            refine ⟨?_, u2, u3, u4.trans hi2.bad0 |>.trans h.bad0.symm⟩
+            show eraseId w4.live w.m.n = w.live
+            rw [u1]
+            show eraseId (eraseId (eraseId (⟨(httpsW1 w hostlen).m.n + 1, .httpHead, headlen + 1⟩ ::
+              ⟨(httpsW1 w hostlen).m.n, .httpCookie, httpCookieSize⟩ :: ⟨w.m.n, .httpsHost, hostlen + 1⟩ :: w.live)
+              ((httpsW1 w hostlen).m.n + 1)) (httpsW1 w hostlen).m.n) w.m.n = w.live
+            simp [eraseId]
+          · intro _ hp ht
+            rw [e1]
+            show w.m.refusals < (w4.m.free false).refusals
+            rw [hfr.1, ← href2]
+            exact u5 hp ht
+        | some x =>
+          obtain ⟨v0, rfl, c, v1, v2, v3⟩ := t4 x rfl
+          simp only
+          refine ⟨v0, hst2.trans t2, fun hc => (by cases hc), ?_, fun hne => absurd (v3.trans href2) hne,
+            fun hc => (by cases hc)⟩
+          intro x hx
+          simp only [Option.some.injEq] at hx
+          subst hx
+          exact ⟨w.m.n, (httpsW1 w hostlen).m.n + 1, c, v1, v2, v3.trans href2⟩
 
 /-! ## `http_request_cancel` -/
+
+/-- the three (two, for plain HTTP) frees of `http_request_cancel` and the table entry goes -/
+def httpCancelDrop (w1 : World) (x : Http) : World :=
+  httpDrop (match x.host with | some sh => release w1 sh | none => w1) x.cookie x.head
+
+theorem httpCancelDrop_spec {w : World} {x : Http} (h : Inv0 w) (hx : x ∈ w.https) :
+    Inv0 (httpCancelDrop w x) ∧ Step w.m (httpCancelDrop w x).m ∧
+    tables (httpCancelDrop w x) = { tables w with https := w.https.filter (fun y => y.cookie != x.cookie) } := by
+  unfold httpCancelDrop
+  cases hs : x.host with
+  | none =>
+    obtain ⟨d1, d2⟩ := httpDrop_spec h hx hs
+    refine ⟨d2, ?_, ?_⟩
+    · rw [d1]
+      show Step w.m ((w.m.free false).free false)
+      exact (EvRegTimer.step_free _ _).trans (EvRegTimer.step_free _ _)
+    · rw [d1]
+      rfl
+  | some sh =>
+    obtain ⟨d1, d2⟩ := httpDropCancel_spec h hx hs
+    refine ⟨d2, ?_, ?_⟩
+    · rw [d1]
+      show Step w.m (((w.m.free false).free false).free false)
+      exact ((EvRegTimer.step_free _ _).trans (EvRegTimer.step_free _ _)).trans (EvRegTimer.step_free _ _)
+    · rw [d1]
+      rfl
 
 /-- `http_request_cancel` of a request that is still connecting: cannot fail, under every oracle -/
 theorem httpRequestCancel_spec (w : World) (x : Http) (h : Inv0 w) (hx : x ∈ w.https)
@@ -394,34 +849,25 @@ theorem httpRequestCancel_spec (w : World) (x : Http) (h : Inv0 w) (hx : x ∈ w
   have hfind := find_https h hx
   cases hc : x.conn with
   | none =>
-    have e : httpRequestCancel w x.cookie = some (httpDrop w x.cookie x.head) := by
+    have e : httpRequestCancel w x.cookie = some (httpCancelDrop w x) := by
       simp only [httpRequestCancel, hfind, hc]
       rfl
-    obtain ⟨d1, d2⟩ := httpDrop_spec h hx
-    refine ⟨_, e, d2, ?_, ?_⟩
-    · rw [d1]
-      show Step w.m ((w.m.free false).free false)
-      exact (EvRegTimer.step_free _ _).trans (EvRegTimer.step_free _ _)
-    · rw [d1]
-      rfl
+    obtain ⟨d1, d2, d3⟩ := httpCancelDrop_spec h hx
+    exact ⟨_, e, d1, d2, d3⟩
   | some c =>
     obtain ⟨k, hk, hkc⟩ := href c hc
     subst hkc
     obtain ⟨w1, e1, i1, st1, _, _, t1⟩ := networkConnectCancel_spec w k h hk
     have hht : w1.https = w.https := congrArg Tables.https t1
     have hx1 : x ∈ w1.https := by rw [hht]; exact hx
-    have e : httpRequestCancel w x.cookie = some (httpDrop w1 x.cookie x.head) := by
+    have e : httpRequestCancel w x.cookie = some (httpCancelDrop w1 x) := by
       simp only [httpRequestCancel, hfind, hc, e1]
       rfl
-    obtain ⟨d1, d2⟩ := httpDrop_spec i1 hx1
-    refine ⟨_, e, d2, ?_, ?_⟩
-    · rw [d1]
-      show Step w.m ((w1.m.free false).free false)
-      exact (st1.trans (EvRegTimer.step_free _ _)).trans (EvRegTimer.step_free _ _)
-    · rw [d1]
-      show ({ tables w1 with https := w1.https.filter (fun y => y.cookie != x.cookie) } : Tables) = _
-      rw [t1, hht]
+    obtain ⟨d1, d2, d3⟩ := httpCancelDrop_spec i1 hx1
+    refine ⟨_, e, d1, st1.trans d2, ?_⟩
+    rw [d3, t1, hht]
 
-/- Unfinished: nothing.  `httpRequest_spec` and `httpRequestCancel_spec` are proved exactly as stated. -/
+/- Unfinished: nothing.  `httpRequest_spec`, `httpsRequest_spec`, `httpRequest2_failure_keeps_host` and
+`httpRequestCancel_spec` are proved exactly as stated. -/
 
 end Percival.Proofs.AllocFailUpper
